@@ -474,7 +474,7 @@ def one_case(ctx, case):
 
 def run_shard(ctx):
     P = plan(ctx)
-    forces = ["scan", "vmap", "cond", "vdist", "call", None]
+    forces = ["scan", "vmap", "indicator", "cond", "vdist", "call", None, "indicator"]
     drive(ctx, ir_cases(forces[ctx.shard % len(forces)]), P["n_ir"], lambda c: one_case(ctx, c), "ir")
     drive(ctx, fam_cases(), P["n_fam"], lambda c: one_case(ctx, c), "fam")
 
